@@ -5,7 +5,10 @@
    from the history alone).  [init num frames] is the store after NewStore/ApplyGenesis/Bootstrap
    with StoreCacheConfig{RootsNum = num, RootsFrames = frames}; the statements quantify over
    ALL num : N and frames : Z for which the store can be built (frames >= 0), i.e. every
-   cache configuration incl. 0 and 1.  [wf_op]: frames and validator ids are uint32, ids 32 bytes. *)
+   cache configuration incl. 0 and 1.  [wf_op]: validator ids are uint32, ids 32 bytes, queried frames
+   are uint32, and AddRoot's spf and frame are < 2^32-1 (at MaxUint32 the Go loop counter wraps: the call
+   does not terminate / registers the wrong range; excluded, not modelled).  Histories may contain
+   restarts (RRestart: a new Store with a fresh cache over the same databases, bootstrapped). *)
 From Coq Require Import NArith ZArith List Bool.
 From LV Require Import model.Codec proofs.CodecProofs model.Wlru model.Roots spec.RootsSpec proofs.RootsProofs.
 Import ListNotations.
@@ -38,6 +41,15 @@ Theorem C33_roots_carry_frame_and_creator :
       r = mkRoot f creator id /\ spf < f /\ f <= frame.
 Proof. exact roots_carry_slot. Qed.
 
+(* which roots are registered, said without the model's frame enumeration: (f, creator, id) is
+   registered for f iff an AddRoot(spf, event{frame, creator, id}) of the current epoch (after the
+   last epoch switch) has spf < f <= frame *)
+Theorem C33_registered_frames :
+  forall ops f creator id,
+  In (mkRoot f creator id) (registered ops f) <->
+  exists spf frame, In (RAdd spf frame creator id) (current_epoch ops) /\ spf < f /\ f <= frame.
+Proof. exact registered_frames. Qed.
+
 (* a new epoch starts with no roots *)
 Theorem C33_new_epoch_starts_empty :
   forall num frames st0 ops f st' rr cr,
@@ -62,12 +74,13 @@ Proof. intros r H; split; [exact (decode_root_key r H) | split; [exact (root_key
 Definition ex_id (b : N) : list N := repeat b 32.
 Definition ex_ops : list rop :=
   [RAdd 0 1 1 (ex_id 1); RAdd 0 1 1 (ex_id 255); RGet 1; RAdd 0 1 1 (ex_id 1); RGet 1;
-   RAdd 1 3 2 (ex_id 7); RGet 2; RGet 3; RGet 1].
+   RAdd 1 3 2 (ex_id 7); RGet 2; RGet 3; RGet 1; RRestart; RGet 1; RGet 3].
 Example C33_ex_history :
   exists st0, init 1 1%Z = Some st0 /\ Forall wf_op ex_ops /\
   map (option_map (fun p => map (fun r => (r_frame r, r_val r, hd 0 (r_id r))) (fst p))) (snd (rrun st0 ex_ops)) =
   [None; None; Some [(1, 1, 1); (1, 1, 255)]; None; Some [(1, 1, 1); (1, 1, 255)];
-   None; Some [(2, 2, 7)]; Some [(3, 2, 7)]; Some [(1, 1, 1); (1, 1, 255)]] /\
+   None; Some [(2, 2, 7)]; Some [(3, 2, 7)]; Some [(1, 1, 1); (1, 1, 255)]; None;
+   Some [(1, 1, 1); (1, 1, 255)]; Some [(3, 2, 7)]] /\
   map (fun r => (r_frame r, r_val r, hd 0 (r_id r))) (registered ex_ops 1) = [(1, 1, 1); (1, 1, 255); (1, 1, 1)].
 Proof.
   eexists. split; [reflexivity|]. split; [|split; vm_compute; reflexivity].
@@ -80,6 +93,7 @@ Proof. split; [eexists; reflexivity | split; [eexists; reflexivity | reflexivity
 Print Assumptions C33_get_frame_roots_exact.
 Print Assumptions C33_every_query_in_every_history.
 Print Assumptions C33_roots_carry_frame_and_creator.
+Print Assumptions C33_registered_frames.
 Print Assumptions C33_new_epoch_starts_empty.
 Print Assumptions C33_same_set_is_set_equality.
 Print Assumptions C33_key_roundtrip_and_prefix.
